@@ -50,7 +50,7 @@ META = {
 INVARIANTS = ["TypeOK", "AgreementOnlyWhenUniform", "UniformIsReported", "NoAgreementOnlyAfterWait", "KeepsPolling",
               "FutureRecords"]
 WITNESSES = ["Witness_AgreeLater", "Witness_DownIgnored", "Witness_NoneCounts", "Witness_Timeout", "Witness_DenseSchedule",
-             "Witness_FutureYesNoMeta", "Witness_AbortAfterPolls", "Witness_NothingSeen"]
+             "Witness_FutureYesNoMeta", "Witness_AbortAfterPolls", "Witness_NothingSeen", "Witness_Bypass"]
 MODES = ["direct", "ddl_meta", "ddl_nometa"]
 MAX_REPORT_PER_SIGNATURE = 2
 VERS = ("A", "B")
@@ -99,29 +99,39 @@ def timelines(ctx, rc):
         cuts = sorted(rng.sample(range(1, w + 3), k - 1))
         tl = [(0, rng.choice(snaps))] + [(c, rng.choice(snaps)) for c in cuts]
         cases.append((rng.choice(MODES), w, tl))
-    cases = [c + (None, None) for c in cases]
+    cases = [c + (None, None, -1) for c in cases]
     # the wait is cut short: the k-th poll is answered by closing the coordinator's connection (after k disagreeing polls)
     disagreeing = [s for s in snaps if not rc._uniform(s)]
     n = 0
     for s in disagreeing:
         for k in ((1,) if ctx.quick else (0, 1, 2)):
             for m in ((MODES[1 + n % 2],) if ctx.quick else MODES):
-                cases.append((m, 14 if k == 2 else 10, [(0, s)], k, None))
+                cases.append((m, 14 if k == 2 else 10, [(0, s)], k, None, -1))
             n += 1
     for s in disagreeing[:6]:
-        cases.append(("direct", 10, [(0, s)], 1, None))
-        cases.append(("ddl_meta", 6, [(0, s)], 0, None))
+        cases.append(("direct", 10, [(0, s)], 1, None, -1))
+        cases.append(("ddl_meta", 6, [(0, s)], 0, None, -1))
     # polls that see nothing: the node does not answer the schema-version queries for a while (snapshot None); the
     # driver's query timeout is 2 s (one lost poll eats the rest of the wait) or 0.1-0.15 s (several lost polls)
     some = [snaps[0], disagreeing[0], disagreeing[len(disagreeing) // 2], snaps[-1]] if ctx.quick else snaps
     for w in waits:
         for m in MODES:
             for qt in (None, 2, 3):
-                cases.append((m, w, [(0, None)], None, qt))                       # every poll of the wait is lost
+                cases.append((m, w, [(0, None)], None, qt, -1))                   # every poll of the wait is lost
                 for s in some:
-                    cases.append((m, w, [(0, None), (4, s)], None, qt))           # lost, then answered
+                    cases.append((m, w, [(0, None), (4, s)], None, qt, -1))       # lost, then answered
                     if not rc._uniform(s):
-                        cases.append((m, w, [(0, s), (3, None)], None, qt))       # answered (disagreeing), then lost
+                        cases.append((m, w, [(0, s), (3, None)], None, qt, -1))   # answered (disagreeing), then lost
+    # the application refreshes the schema metadata itself (Cluster.refresh_schema_metadata), without a wait of its own
+    # (-1), with max_schema_agreement_wait=0 ("do not wait") or with a wait shorter than the cluster-wide one
+    for pc in (-1, 0, 6):
+        for s in snaps:
+            cases.append(("refresh", 10, [(0, s)], None, None, pc))
+        for s1 in (disagreeing[::5] if ctx.quick else disagreeing):
+            for s2 in (snaps[::7] if ctx.quick else snaps):
+                cases.append(("refresh", 10, [(0, s1), (3, s2)], None, None, pc))
+                if not ctx.quick:
+                    cases.append(("refresh", 10, [(0, s1), (8, s2)], None, None, pc))
     return cases
 
 
@@ -130,13 +140,15 @@ def run(ctx):
     import copy
     import time
     quick = ctx.quick
-    base = {"KPeers": {1, 2}, "UPeers": {3}, "Vers": set(VERS), "LocalVers": {"A"}, "Modes": set(MODES), "MaxGap": rc.MAX_GAP}
+    base = {"KPeers": {1, 2}, "UPeers": {3}, "Vers": set(VERS), "LocalVers": {"A"}, "Modes": set(MODES) | {"refresh"}, "MaxGap": rc.MAX_GAP,
+            "PerCall": {0, 6}}
     timing = {}
 
     # ---- the specification itself: every schedule x every snapshot
     t0 = time.time()
     # (1) small configuration, one worker, all vacuity witnesses recorded
-    econsts = dict(base, Waits={6}, UPeers=set()) if quick else dict(base, Waits={6}, Modes={"ddl_nometa"})
+    econsts = dict(base, Waits={6}, UPeers=set(), PerCall={0, 4}) if quick else \
+        dict(base, Waits={6}, Modes={"ddl_nometa", "refresh"}, PerCall={0, 4})
     wit = WITNESSES + ([] if quick else ["Witness_UnknownIgnored"])
     cfg = tlc.write_cfg(os.path.join(ctx.scratch, "agree.cfg"), spec="Spec", constants=econsts, invariants=INVARIANTS,
                         properties=() if quick else ("Terminates",), constraints=["RecordWitnesses"],
@@ -169,14 +181,14 @@ def run(ctx):
     hs = _harnesses([1, 2], [3])
     cases = timelines(ctx, rc)
     traces = []
-    for i, (mode, w, tl, fault, qt) in enumerate(cases):
-        tr, got = rc.agree_trace(hs, mode, w, tl, fault, qt)
+    for i, (mode, w, tl, fault, qt, pc) in enumerate(cases):
+        tr, got = rc.agree_trace(hs, mode, w, tl, fault, qt, pc)
         traces.append(tr)
         npolls = sum(1 for e in tr if e["e"] == "Poll")
         if npolls >= 2 or any(s is None or x != "up" for _, s in tl for x in (s or {"st": []})["st"]):
             ctx.nontrivial(i)
         if i % 2503 == 11:
-            ctx.sample({"mode": mode, "wait_s": w * rc.TICK, "timeline": [(f * rc.TICK, s) for f, s in tl],
+            ctx.sample({"mode": mode, "wait_s": w * rc.TICK, "per_call_wait_s": None if pc == -1 else pc * rc.TICK, "timeline": [(f * rc.TICK, s) for f, s in tl],
                         "connection_closed_at_poll": fault, "query_timeout_s": None if qt is None else qt * rc.TICK, "recorded": [{k: v for k, v in e.items()} for e in tr[1:]]})
     for h in hs.values():
         h.shutdown()
@@ -184,7 +196,7 @@ def run(ctx):
     good = len(traces)
     # binding self-test: a flipped outcome, a dropped poll, a schedule with a hole must be rejected
     v1 = next((t for t in traces if t[0]["mode"] == "direct" and t[-1].get("v") == "yes" and len(t) >= 4), None)
-    v2 = next((t for t in traces if t[0]["mode"] == "ddl_meta" and t[-1].get("v") == "no" and t[0]["wait"] >= 10
+    v2 = next((t for t in traces if t[0]["mode"] == "ddl_meta" and t[-1].get("v") == "no" and t[0]["cw"] >= 10
                and len(t) >= 4), None)
     selftest = []
     if v1 is not None and v2 is not None:
@@ -220,13 +232,14 @@ def run(ctx):
         sig = rc.agree_signature(t, at)
         by_sig[sig] = by_sig.get(sig, 0) + 1
         if by_sig[sig] <= MAX_REPORT_PER_SIGNATURE:
-            mode, w, tl, fault, qt = cases[i]
-            ctx.violation("%s, wait %.2f s, timeline %s%s: the recorded run %s is not a behaviour of ControlAgree.tla (rejected at "
-                          "event %d: %s)" % (mode, w * rc.TICK, [(f * rc.TICK, s) for f, s in tl],
+            mode, w, tl, fault, qt, pc = cases[i]
+            ctx.violation("%s, wait %.2f s" % (mode, w * rc.TICK) + ("" if pc == -1 else " (per-call wait %.2f s)" % (pc * rc.TICK)) +
+                          ", timeline %s%s: the recorded run %s is not a behaviour of ControlAgree.tla (rejected at "
+                          "event %d: %s)" % ([(f * rc.TICK, s) for f, s in tl],
                                              "" if fault is None else ", connection closed instead of answering poll #%d" % fault,
                                              t[1:], at, t[at]),
                           replay={"mode": mode, "wait": w, "timeline": [[f, s] for f, s in tl], "fault_at_poll": fault,
-                                  "query_timeout_ticks": qt,
+                                  "query_timeout_ticks": qt, "per_call": pc,
                                   "recorded": t, "rejected_at": at},
                           signature=sig)
     ctx.traces_validated += accepted
@@ -260,7 +273,8 @@ def replay(ctx, obj):
     from harness.replay import control as rc
     hs = _harnesses([1, 2], [3])
     tl = [(f, s) for f, s in obj["timeline"]]
-    tr, got = rc.agree_trace(hs, obj["mode"], obj["wait"], tl, obj.get("fault_at_poll"), obj.get("query_timeout_ticks"))
+    tr, got = rc.agree_trace(hs, obj["mode"], obj["wait"], tl, obj.get("fault_at_poll"), obj.get("query_timeout_ticks"),
+                             obj.get("per_call", -1))
     for h in hs.values():
         h.shutdown()
     print("mode=%s wait=%.2fs" % (obj["mode"], obj["wait"] * rc.TICK))
@@ -269,8 +283,8 @@ def replay(ctx, obj):
     for e in tr[1:]:
         print("  recorded:", e)
     cfg = tlc.write_cfg(os.path.join(ctx.scratch, "agree_trace.cfg"), init="TraceInit", next="TraceNext",
-                        constants={"KPeers": {1, 2}, "UPeers": {3}, "Vers": set(VERS), "LocalVers": {"A"}, "Modes": set(MODES),
-                                   "MaxGap": rc.MAX_GAP, "Waits": {6, 10, 14}},
+                        constants={"KPeers": {1, 2}, "UPeers": {3}, "Vers": set(VERS), "LocalVers": {"A"}, "Modes": set(MODES) | {"refresh"},
+                                   "MaxGap": rc.MAX_GAP, "Waits": {6, 10, 14}, "PerCall": {0, 6}},
                         invariants=INVARIANTS, constraints=["Progress"], postcondition="Done", deadlock=False)
     tres, prog = tlc.validate_traces("Trace_ControlAgree", cfg, [tr], ctx.scratch, timeout=900)
     if prog[0] != len(tr) + 1:
